@@ -15,6 +15,8 @@ const (
 	lkTrigger   = "resolve.trigger.mu"
 	lkUpdater   = "resolve.subscriptionUpdater.mu"
 	fNotRemoved = "under:" + lkWriteMu + ":notremoved"
+	// fNotTerminated: inside the current writeMu critical section subscriptionState.terminated was tested false
+	fNotTerminated = "under:" + lkWriteMu + ":notterminated"
 	fUpdLive    = "under:" + lkUpdater + ":live"
 )
 
@@ -35,6 +37,10 @@ func init() {
 			"that every subscriptionUpdater callback enters the resolver only under updater.mu after the done/ctx gate; and that handleTriggerUpdate joins its workers. " +
 			"It does not decide ordering or exactness of the delivered messages (value/ history level).",
 		Mutants: []Mutant{
+			{Name: "heartbeats no longer ask whether the terminal frame was written (reverts part of the F76 fix)", File: resolveGo, Rule: "C12-R10", Key: "sendHeartbeat",
+				Old: "\tif s.removed.Load() || s.terminated {\n\t\treturn nil\n\t}\n\treturn s.writer.Heartbeat()", New: "\tif s.removed.Load() {\n\t\treturn nil\n\t}\n\treturn s.writer.Heartbeat()"},
+			{Name: "complete() does not record the terminal frame (reverts part of the F76 fix)", File: resolveGo, Rule: "C12-R10", Key: "subscriptionState.complete/terminal-frame-recorded",
+				Old: "\ts.writer.Complete()\n\ts.terminated = true\n", New: "\ts.writer.Complete()\n"},
 			{Name: "filter loop quotes the event value in place (reverts the F32 fix)", File: "v2/pkg/engine/resolve/subscription_filter.go", Rule: "C12-R9", Key: "SkipEvent/loop-invariant-input-reassigned:expected",
 				Old: "\t\t\t\t\tquotedExpected, err = json.Marshal(string(expected))\n", New: "\t\t\t\t\texpected, err = json.Marshal(string(expected))\n\t\t\t\t\tquotedExpected = expected\n"},
 			{Name: "filter loop returns at the first filter error (seeded change C12-22)", File: resolveGo, Rule: "C12-R7", Key: "trigger.filterSubscriptions/filter-loop-visits-every-subscriber",
@@ -46,10 +52,10 @@ func init() {
 			{Name: "one failing filter drops the event for all subscribers (seeded change C12-13)", File: resolveGo, Rule: "C12-R6", Key: "handleTriggerUpdate/exit-after-delivery",
 				Old: "\tfor _, fe := range filterErrors {\n\t\tfe.sub.writeError(r.errorFormatter, fe.ctx, fe.err, fe.response)\n\t}\n\n\tvar wg sync.WaitGroup", New: "\tfor _, fe := range filterErrors {\n\t\tfe.sub.writeError(r.errorFormatter, fe.ctx, fe.err, fe.response)\n\t}\n\tif len(filterErrors) != 0 {\n\t\treturn\n\t}\n\n\tvar wg sync.WaitGroup"},
 			{Name: "heartbeat written without re-checking removed", File: resolveGo, Rule: "C12-R1", Key: "sendHeartbeat",
-				Old: "\tif s.removed.Load() {\n\t\treturn nil\n\t}\n\treturn s.writer.Heartbeat()", New: "\treturn s.writer.Heartbeat()"},
+				Old: "\tif s.removed.Load() || s.terminated {\n\t\treturn nil\n\t}\n\treturn s.writer.Heartbeat()", New: "\tif s.terminated {\n\t\treturn nil\n\t}\n\treturn s.writer.Heartbeat()"},
 			{Name: "removed tested before writeMu is taken in executeSubscriptionUpdate", File: resolveGo, Rule: "C12-R1", Key: "executeSubscriptionUpdate",
-				Old: "\tsub.writeMu.Lock()\n\tif sub.removed.Load() {\n\t\tsub.writeMu.Unlock()\n\t\tr.resolveArenaPool.Release(resolveArena)\n\t\treturn\n\t}",
-				New: "\tif sub.removed.Load() {\n\t\tr.resolveArenaPool.Release(resolveArena)\n\t\treturn\n\t}\n\tsub.writeMu.Lock()"},
+				Old: "\tsub.writeMu.Lock()\n\tif sub.removed.Load() || sub.terminated {\n\t\tsub.writeMu.Unlock()\n\t\tr.resolveArenaPool.Release(resolveArena)\n\t\treturn\n\t}",
+				New: "\tif sub.removed.Load() {\n\t\tr.resolveArenaPool.Release(resolveArena)\n\t\treturn\n\t}\n\tsub.writeMu.Lock()\n\tif sub.terminated {\n\t\tsub.writeMu.Unlock()\n\t\tr.resolveArenaPool.Release(resolveArena)\n\t\treturn\n\t}"},
 			{Name: "subscription queued for close without winning the CAS", File: resolveGo, Rule: "C12-R2", Key: "removeSubscriptionLocked",
 				Old: "\tif s.removed.CompareAndSwap(false, true) {\n\t\ttoClose = append(toClose, s)\n\t}\n\tdelete(trig.subscriptions, id)",
 				New: "\ts.removed.Store(true)\n\ttoClose = append(toClose, s)\n\tdelete(trig.subscriptions, id)"},
@@ -77,6 +83,12 @@ func subsLockAnalysis(r *fw.Run) *fw.LockAnalysis {
 		if _, ok := fw.AtomicFieldCall(info, e, "resolve", "subscriptionState", "removed", "Load"); ok && !branch {
 			if fw.Held(st, lkWriteMu, false) {
 				st.Set(fNotRemoved)
+			}
+		}
+		// terminated == false while writeMu is held (the terminal frame has not been written)
+		if fw.IsFieldSel(info, e, "resolve", "subscriptionState", "terminated") && !branch {
+			if fw.Held(st, lkWriteMu, false) {
+				st.Set(fNotTerminated)
 			}
 		}
 		// updater gate: `s.done` false (and ctx.Err()==nil) while updater.mu is held
@@ -144,6 +156,77 @@ func runC12(r *fw.Run) {
 		}
 	})
 	r.Expect("C12-R1", "uses of subscriptionState.writer", nWriter, 7)
+
+	// ---- R10: nothing after the terminal frame -------------------------------------------------
+	// Complete() / Error() write the terminal frame of a subscription, but the subscription is only removed later, when
+	// the trigger is done — after the terminal frames of all other subscribers have been written, which can take as long as
+	// a slow client likes. In between, the heartbeat loop, a late update or a failing hook would write behind the terminal
+	// frame. The state has a record for it (a field written only next to the terminal writes, under writeMu): every use of
+	// the writer follows a false test of that record inside the same critical section, and the two terminal writes set it
+	// before the section ends.
+	r.Rule("C12-R10", "every use of subscriptionState.writer follows a false test of the terminal-frame record (subscriptionState.terminated) inside the same writeMu critical section, and the functions that write the terminal frame (writer.Complete / writer.Error) set the record before they release writeMu")
+	nTerm, nSet := 0, 0
+	la.Visit(func(in *fw.Interp, n ast.Node, st *fw.State) {
+		if as, ok := n.(*ast.AssignStmt); ok {
+			for i, l := range as.Lhs {
+				if fw.IsFieldSel(in.Info, l, "resolve", "subscriptionState", "terminated") && i < len(as.Rhs) {
+					if v, isConst := fw.ConstVal(in.Info, as.Rhs[i]); isConst && v == "true" {
+						st.Set("under:" + lkWriteMu + ":terminalset")
+					}
+				}
+			}
+		}
+		sel, ok := n.(*ast.SelectorExpr)
+		if !ok || !fw.IsFieldSel(in.Info, sel, "resolve", "subscriptionState", "writer") {
+			return
+		}
+		nTerm++
+		r.Check(st.Must(fNotTerminated), "C12-R10", fw.SiteLabel(in)+"/use-writer-before-terminal-frame", p.Pos(sel.Pos()), "use of subscriptionState.writer in "+fw.SiteLabel(in)+" follows a false test of the terminal-frame record in the same critical section",
+			"the writer is used without testing, inside this critical section, whether the terminal frame (complete / error) has already been written: between the terminal frame and the removal of the subscription (which waits for the terminal frames of all other subscribers) a heartbeat, a late update or an error is written behind `complete`")
+	})
+	for _, name := range []string{"subscriptionState.complete", "subscriptionState.error"} {
+		fi := p.Func("resolve", name)
+		if fi == nil {
+			r.Error("C12-R10: %s not found", name)
+			continue
+		}
+		nSet++
+		info := fi.Info()
+		set := false
+		in := fw.NewInterp(fi)
+		okAll := true
+		in.H = fw.Hooks{
+			Node: func(nd ast.Node, st *fw.State) {
+				switch x := nd.(type) {
+				case *ast.CallExpr:
+					if fn := fw.Callee(info, x); fn != nil && (fn.Name() == "Complete" || fn.Name() == "Error") {
+						if sel, isSel := ast.Unparen(x.Fun).(*ast.SelectorExpr); isSel && fw.IsFieldSel(info, sel.X, "resolve", "subscriptionState", "writer") {
+							st.Set("terminal-written")
+						}
+					}
+				case *ast.AssignStmt:
+					for i, l := range x.Lhs {
+						if fw.IsFieldSel(info, l, "resolve", "subscriptionState", "terminated") && i < len(x.Rhs) {
+							if v, isConst := fw.ConstVal(info, x.Rhs[i]); isConst && v == "true" {
+								st.Set("record-set")
+								set = true
+							}
+						}
+					}
+				}
+			},
+			Exit: func(ret *ast.ReturnStmt, lit *ast.FuncLit, st *fw.State) {
+				if lit == nil && in.Final() && st.May("terminal-written") && !st.Must("record-set") {
+					okAll = false
+				}
+			},
+		}
+		in.Run(nil)
+		r.Check(okAll && set, "C12-R10", name+"/terminal-frame-recorded", p.Pos(fi.Decl.Pos()), name+" records that it wrote the terminal frame before it returns",
+			name+" writes the terminal frame without setting the record that later writers test: everything written afterwards (heartbeats, late updates) lands behind `complete` / `error`")
+	}
+	r.Expect("C12-R10", "uses of subscriptionState.writer (terminal-frame typestate)", nTerm, 7)
+	_ = nSet
 
 	// ---- R2: completion signalled exactly once -----------------------------------------------
 	r.Rule("C12-R2", "subscriptionState.completed is closed at one site, under writeMu, reached only via closeSubs, whose inputs are only elements won by removed.CompareAndSwap(false,true)")
